@@ -71,6 +71,30 @@ Fixpoint prop_arr (fuel : nat) (sign : Z) (P A : list Z) (c u : Z) : res (list Z
       prop_arr f sign P A' c pu
   end.
 
+Definition nonneg (A : list Z) : Prop := Forall (fun a => 0 <= a) A.
+
+Lemma csum_nonneg : forall P A x, nonneg A -> 0 <= csum P A x.
+Proof.
+  induction P as [|p P IH]; intros A x H; destruct A as [|a A]; simpl; try lia.
+  inversion H; subst. specialize (IH A x H3). destruct (p =? x); lia.
+Qed.
+
+Lemma nonneg_set_nat : forall A n v A', nonneg A -> 0 <= v -> set_nat A n v = Some A' -> nonneg A'.
+Proof.
+  induction A as [|a A IH]; intros n v A' H Hv S; destruct n; simpl in S; try discriminate.
+  - inversion S; subst. inversion H; subst. constructor; auto.
+  - destruct (set_nat A n v) as [A1|] eqn:E; [|discriminate]. inversion S; subst. inversion H; subst.
+    constructor; [assumption|]. exact (IH n v A1 H3 Hv E).
+Qed.
+
+Lemma nonneg_set A u v A' : nonneg A -> 0 <= v -> set A u v = Ok A' -> nonneg A'.
+Proof. intros H Hv S. apply set_inv in S as [_ S]. eapply nonneg_set_nat; eauto. Qed.
+
+Lemma nonneg_get A u a : nonneg A -> get A u = Ok a -> 0 <= a.
+Proof.
+  intros H G. apply get_In in G. unfold nonneg in H. rewrite Forall_forall in H. auto.
+Qed.
+
 Section Counts.
   Variables (N : Z) (smp tm : Z -> Z).
 
@@ -94,10 +118,11 @@ Section Counts.
     Mono Ploop ->
     Defect P' A c u sign ->
     (u <> NULL -> tm c < tm u) ->
+    (forall x, 0 <= smp x) -> nonneg A -> 0 <= u < N \/ u = NULL ->
     prop_arr fuel sign Ploop A c u = Ok A' ->
-    LE P' A' /\ length A' = length A /\ get A' c = get A c.
+    LE P' A' /\ length A' = length A /\ get A' c = get A c /\ nonneg A'.
   Proof.
-    induction fuel as [|f IH]; intros u A A' HL AG MO (ac & GC & D) TM H; simpl in H.
+    induction fuel as [|f IH]; intros u A A' HL AG MO (ac & GC & D) TM SM NNA UR H; simpl in H.
     - destruct (u =? NULL) eqn:U; [|discriminate]. inversion H; subst A'. split; [|auto].
       intros x Hx. destruct (D x Hx) as (a & Ga & Ea). exists a. split; [exact Ga|].
       apply Z.eqb_eq in U. subst u. replace (x =? NULL) with false in Ea by (symmetry; apply Z.eqb_neq; unfold NULL; lia). lia.
@@ -112,7 +137,13 @@ Section Counts.
         assert (UC : u <> c) by (intros ->; lia).
         assert (GP' : get P' u = Ok pu) by (rewrite <- (AG u UC); exact E2).
         assert (HL1 : length P' = length A1) by (rewrite (set_length _ _ _ _ E1); exact HL).
-        destruct (IH pu A1 A' HL1 AG MO) as (LE' & L' & GC'); auto.
+        assert (UN : 0 <= u < N) by (destruct UR; [assumption | congruence]).
+        assert (NN1 : nonneg A1).
+        { eapply nonneg_set; [exact NNA| |exact E1].
+          destruct (D u UN) as (a & Ga & Ea). rewrite Z.eqb_refl in Ea.
+          assert (a = au) by congruence. subst a.
+          pose proof (csum_nonneg P' A u NNA). specialize (SM u). lia. }
+        destruct (IH pu A1 A' HL1 AG MO) as (LE' & L' & GC' & NN'); auto.
         * exists ac. split.
           { rewrite (get_set_other _ _ _ c _ E1); auto. }
           intros x Hx. destruct (D x Hx) as (a & Ga & Ea).
@@ -126,7 +157,9 @@ Section Counts.
              ++ rewrite Z.eqb_sym in UP. rewrite UP. lia.
           -- exists a. split; [exact Ga|]. rewrite Z.eqb_sym. destruct (pu =? x); lia.
         * intros NP. destruct (MO u pu E2 NP) as (_ & _ & ?). lia.
-        * split; [exact LE'|]. split; [rewrite L'; eapply set_length; eauto|].
+        * destruct (Z.eq_dec pu NULL) as [|NP]; [right; assumption|left].
+          destruct (MO u pu E2 NP) as (_ & ? & _). assumption.
+        * split; [exact LE'|]. split; [rewrite L'; eapply set_length; eauto|]. split; [|exact NN'].
           rewrite GC'. rewrite (get_set_other _ _ _ c _ E1) by auto. first [assumption | reflexivity | congruence].
   Qed.
 End Counts.
@@ -329,7 +362,18 @@ Proof.
 Qed.
 
 
+Lemma nonneg_set_all : forall idx l v l', nonneg l -> 0 <= v -> set_all l idx v = Ok l' -> nonneg l'.
+Proof.
+  induction idx as [|i r IH]; intros l v l' H Hv S; simpl in S.
+  - inversion S; subst; exact H.
+  - bind_inv S. eapply IH; [|exact Hv|exact S]. eapply nonneg_set; eauto.
+Qed.
+
+Lemma nonneg_repeat0 n : nonneg (repeat 0 n).
+Proof. induction n; simpl; constructor; auto; lia. Qed.
+
 Lemma tree_clear_cnt q o t : tree_clear q o = Ok t -> 0 <= q_N q ->
+  nonneg (t_ns t) /\ nonneg (t_nt t) /\
   length (t_ns t) = Z.to_nat (q_N q + 1) /\ length (t_nt t) = Z.to_nat (q_N q + 1) /\
   forall x, 0 <= x < q_N q ->
     get (t_ns t) x = Ok (ind (q_samples q) x) /\ get (t_nt t) x = Ok (ind (o_tracked o) x).
@@ -345,6 +389,13 @@ Proof.
   destruct (set_all_spec _ _ _ _ E0) as [L1 G1]. destruct (set_all_spec _ _ _ _ E1) as [L2 G2].
   pose proof (set_length _ _ _ _ E) as L0. pose proof (set_length _ _ _ _ E2) as L3.
   rewrite repeat_length in *.
+  split.
+  { assert (X : nonneg ns0).
+    { refine (nonneg_set _ _ _ _ (nonneg_repeat0 _) _ E). unfold zlen; lia. }
+    exact (nonneg_set_all _ _ 1 _ X ltac:(lia) E0). }
+  split.
+  { assert (X : nonneg nt0) by exact (nonneg_set_all _ _ 1 _ (nonneg_repeat0 _) ltac:(lia) E1).
+    refine (nonneg_set _ _ _ _ X _ E2). unfold zlen; lia. }
   split; [lia|]. split; [lia|]. intros x Hx. unfold ind. split.
   - destruct (G1 x) as [A B]. destruct (existsb (Z.eqb x) (q_samples q)); [auto|].
     rewrite B by reflexivity. rewrite (get_set_other _ _ _ x _ E) by lia. apply get_repeat. lia.
@@ -369,7 +420,8 @@ Section CountInv.
     get (t_parent t) N = Ok NULL /\
     Mono N tmf (t_parent t) /\
     LE N (ind (q_samples q)) (t_parent t) (t_ns t) /\
-    LE N (ind (o_tracked o)) (t_parent t) (t_nt t).
+    LE N (ind (o_tracked o)) (t_parent t) (t_nt t) /\
+    nonneg (t_ns t) /\ nonneg (t_nt t).
 
   Lemma qN : q_N q = N.
   Proof. destruct (mk_tseq_inv L ns es Ins Rem q HQ) as (? & ? & _ & _ & _ & _ & _ & E & _). exact E. Qed.
@@ -384,10 +436,10 @@ Section CountInv.
   Proof.
     intros H. pose proof (tree_clear_par _ _ _ H) as [PP _].
     assert (HN : 0 <= q_N q) by (rewrite qN; unfold N, zlen; lia).
-    destruct (tree_clear_cnt _ _ _ H HN) as (L1 & L2 & G). rewrite qN in *.
+    destruct (tree_clear_cnt _ _ _ H HN) as (NN1 & NN2 & L1 & L2 & G). rewrite qN in *.
     unfold Jcnt. rewrite PP.
     split; [apply repeat_length|]. split; [lia|]. split; [lia|].
-    split; [apply get_repeat; lia|]. split; [|split].
+    split; [apply get_repeat; lia|]. split; [|split; [|split; [|split; [exact NN1 | exact NN2]]]].
     - intros u p Gp NP. exfalso. apply get_inv in Gp as Gr. unfold zlen in Gr. rewrite repeat_length in Gr.
       rewrite get_repeat in Gp by lia. congruence.
     - intros x Hx. destruct (G x Hx) as [G1 _]. eexists. split; [exact G1|].
@@ -400,16 +452,17 @@ Section CountInv.
     length P = length A ->
     set P c pnew = Ok P' -> get P c = Ok pold ->
     (pold = NULL /\ pnew = p /\ sign = 1 /\ Ploop = P) \/ (pold = p /\ pnew = NULL /\ sign = -1 /\ Ploop = P') ->
-    0 <= p -> Mono N tmf Ploop -> tmf c < tmf p ->
+    0 <= p < N -> Mono N tmf Ploop -> tmf c < tmf p ->
+    (forall x, 0 <= smp x) -> nonneg A ->
     LE N smp P A ->
     prop_arr fuel sign Ploop A c p = Ok A' ->
-    LE N smp P' A' /\ length A' = length A.
+    LE N smp P' A' /\ length A' = length A /\ nonneg A'.
   Proof.
-    intros HL SP GP Cases Hp MO TM LEq H.
+    intros HL SP GP Cases Hp MO TM SM NNA LEq H.
     assert (HL' : length P' = length A) by (rewrite (set_length _ _ _ _ SP); exact HL).
     assert (exists ac, get A c = Ok ac) as [ac GA].
     { apply get_ok. apply get_inv in GP. unfold zlen in *. lia. }
-    destruct (prop_arr_LE N smp tmf Ploop P' c sign fuel p A A') as (R1 & R2 & _); auto.
+    destruct (prop_arr_LE N smp tmf Ploop P' c sign fuel p A A') as (R1 & R2 & _ & R4); auto.
     - intros w Hw. destruct Cases as [(_ & _ & _ & ->)|(_ & _ & _ & ->)]; [|reflexivity].
       symmetry. eapply get_set_other; eauto.
     - exists ac. split; [exact GA|]. intros x Hx. destruct (LEq x Hx) as (a & Ga & Ea).
@@ -432,35 +485,37 @@ Section CountInv.
     get (t_parent t) (echild e) = Ok (eparent e) ->
     remove_edge q o t (eparent e) (echild e) = Ok t' -> Jcnt t'.
   Proof.
-    intros (L0 & L1 & L2 & GV & MO & LE1 & LE2) He GP H.
+    intros (L0 & L1 & L2 & GV & MO & LE1 & LE2 & NN1 & NN2) He GP H.
+    assert (SM : forall l x, 0 <= ind l x) by (intros l x; unfold ind; destruct (existsb (Z.eqb x) l); lia).
     destruct (edge_tm e He) as (Hc & Hp & Ht).
     destruct (remove_edge_cnt _ _ _ _ _ _ H) as (SP & C1 & C2).
     pose proof (Mono_set_null _ _ _ MO SP) as MO'.
     destruct (LE_after (ind (q_samples q)) (t_parent t') (t_parent t') (t_parent t) (t_ns t) (t_ns t')
-                (echild e) (eparent e) (eparent e) NULL (-1) (chain_fuel t)) as [R1 R1']; auto; try lia.
+                (echild e) (eparent e) (eparent e) NULL (-1) (chain_fuel t)) as (R1 & R1' & R1n); auto; try lia.
     destruct (LE_after (ind (o_tracked o)) (t_parent t') (t_parent t') (t_parent t) (t_nt t) (t_nt t')
-                (echild e) (eparent e) (eparent e) NULL (-1) (chain_fuel t)) as [R2 R2']; auto; try lia.
+                (echild e) (eparent e) (eparent e) NULL (-1) (chain_fuel t)) as (R2 & R2' & R2n); auto; try lia.
     unfold Jcnt. rewrite (set_length _ _ _ _ SP).
     split; [exact L0|]. split; [lia|]. split; [lia|].
     split; [rewrite (get_set_other _ _ _ N _ SP) by lia; exact GV|].
-    split; [exact MO'|]. split; [exact R1 | exact R2].
+    split; [exact MO'|]. split; [exact R1|]. split; [exact R2|]. split; [exact R1n | exact R2n].
   Qed.
 
   Lemma Jcnt_insert t e i t' : Jcnt t -> In e es ->
     get (t_parent t) (echild e) = Ok NULL ->
     insert_edge q o t (eparent e) (echild e) i = Ok t' -> Jcnt t'.
   Proof.
-    intros (L0 & L1 & L2 & GV & MO & LE1 & LE2) He GP H.
+    intros (L0 & L1 & L2 & GV & MO & LE1 & LE2 & NN1 & NN2) He GP H.
+    assert (SM : forall l x, 0 <= ind l x) by (intros l x; unfold ind; destruct (existsb (Z.eqb x) l); lia).
     destruct (edge_tm e He) as (Hc & Hp & Ht).
     destruct (insert_edge_cnt _ _ _ _ _ _ _ H) as (SP & C1 & C2).
     destruct (LE_after (ind (q_samples q)) (t_parent t) (t_parent t') (t_parent t) (t_ns t) (t_ns t')
-                (echild e) (eparent e) NULL (eparent e) 1 (chain_fuel t)) as [R1 R1']; auto; try lia.
+                (echild e) (eparent e) NULL (eparent e) 1 (chain_fuel t)) as (R1 & R1' & R1n); auto; try lia.
     destruct (LE_after (ind (o_tracked o)) (t_parent t) (t_parent t') (t_parent t) (t_nt t) (t_nt t')
-                (echild e) (eparent e) NULL (eparent e) 1 (chain_fuel t)) as [R2 R2']; auto; try lia.
+                (echild e) (eparent e) NULL (eparent e) 1 (chain_fuel t)) as (R2 & R2' & R2n); auto; try lia.
     unfold Jcnt. rewrite (set_length _ _ _ _ SP).
     split; [exact L0|]. split; [lia|]. split; [lia|].
     split; [rewrite (get_set_other _ _ _ N _ SP) by lia; exact GV|].
-    split; [|split; [exact R1 | exact R2]].
+    split; [|split; [exact R1 | split; [exact R2 | split; [exact R1n | exact R2n]]]].
     intros u p G NP. rewrite (get_set _ _ _ u _ SP) in G.
     destruct (u =? echild e) eqn:EU.
     - apply Z.eqb_eq in EU. inversion G; subst. auto.
